@@ -224,6 +224,13 @@ def runPack {W : Type} [DecidableEq W] (pk : Pack W) (br : BR) (worldIn : Json) 
     let w' ← pk.decode (← jget impl "world")
     let holds := stepOracles stopped ready (pk.releasedFull br1 w') (Q.claimed br1 w w') (Q.wf w && Q.expoOK br1 w) scaled
       (Q.exposure w) (Q.exposure w') (Q.allowed br1 w) br w ibr w'
+    -- with an injected API fault the status update itself may have failed: only the clauses that do not depend on the new
+    -- status having been persisted are judged (what was written, the finalizer, Completed ⇒ released, the cursor bounds)
+    let robust := ["C18.x_finalizer_guards_teardown", "C06.x_no_act_before_persist", "C01.x_no_act_before_persist",
+      "C11.x_batch_advance_guarded", "C01.x_batch_advance_guarded", "C11.x_within_partition", "C01.x_within_partition",
+      "C01.x_write_within_batch", "C11.x_completed_means_released", "C18.x_completed_means_released",
+      "C01.x_init_claims", "C11.x_init_claims"]
+    let holds := if k > 0 then holds.filter (fun kv => robust.contains kv.1) else holds
     return { model := model, holds := ("C09.x_no_panic", true) :: holds, tags := tags }
 
 def handle : Handler := fun op inp impl => do
